@@ -197,8 +197,8 @@ pub(crate) mod verif_client {
     //@H name=c03_time_vec_u64_try props=C01,C03,C20 tier=thorough fn=Timed<Vec<u64>> :: time(Vec<u64>): one emit; the empty list is rejected and nothing is sent
     //@H name=c03_time_vec_u64_send props=C03,C20 tier=thorough fn=Timed<Vec<u64>> :: time(Vec<u64>) quiet form
     entry!(c03_time_vec_u64_try, c03_time_vec_u64_send, time, time_with_tags, vec_or_empty(kani::any::<u64>()), true);
-    //@H name=c03_time_vec_duration_try props=C01,C02,C03,C20 tier=thorough fn=Timed<Vec<Duration>> :: time(Vec<Duration>) (length 0..1): overflow or empty => InvalidInput and nothing sent
-    //@H name=c03_time_vec_duration_send props=C02,C03,C20 tier=thorough fn=Timed<Vec<Duration>> :: time(Vec<Duration>) quiet form
+    //@H name=c03_time_vec_duration_try mem=heavy props=C01,C02,C03,C20 tier=thorough fn=Timed<Vec<Duration>> :: time(Vec<Duration>) (length 0..1): overflow or empty => InvalidInput and nothing sent
+    //@H name=c03_time_vec_duration_send mem=heavy props=C02,C03,C20 tier=thorough fn=Timed<Vec<Duration>> :: time(Vec<Duration>) quiet form
     entry!(c03_time_vec_duration_try, c03_time_vec_duration_send, time, time_with_tags, { let (d, ok) = dur_ms_exact(); let (v, ne) = vec_or_empty(d); (v, ok && ne || (!ne && false)) }, true);
     //@H name=c03_gauge_u64_try props=C01,C03,C20 tier=thorough fn=Gauged<u64> :: gauge(u64): one emit, truthful result
     //@H name=c03_gauge_u64_send props=C03,C20 tier=thorough fn=Gauged<u64> :: gauge(u64) quiet form
@@ -224,8 +224,8 @@ pub(crate) mod verif_client {
     //@H name=c03_hist_vec_f64_try props=C01,C03,C20 tier=thorough fn=Histogrammed<Vec<f64>> :: histogram(Vec<f64>): one emit; empty rejected
     //@H name=c03_hist_vec_f64_send props=C03,C20 tier=thorough fn=Histogrammed<Vec<f64>> :: histogram(Vec<f64>) quiet form
     entry!(c03_hist_vec_f64_try, c03_hist_vec_f64_send, histogram, histogram_with_tags, vec_or_empty(kani::any::<f64>()), true);
-    //@H name=c03_hist_vec_duration_try props=C01,C02,C03,C20 tier=thorough fn=Histogrammed<Vec<Duration>> :: histogram(Vec<Duration>) (length 0..1): overflow or empty => InvalidInput and nothing sent
-    //@H name=c03_hist_vec_duration_send props=C02,C03,C20 tier=thorough fn=Histogrammed<Vec<Duration>> :: histogram(Vec<Duration>) quiet form
+    //@H name=c03_hist_vec_duration_try mem=heavy props=C01,C02,C03,C20 tier=thorough fn=Histogrammed<Vec<Duration>> :: histogram(Vec<Duration>) (length 0..1): overflow or empty => InvalidInput and nothing sent
+    //@H name=c03_hist_vec_duration_send mem=heavy props=C02,C03,C20 tier=thorough fn=Histogrammed<Vec<Duration>> :: histogram(Vec<Duration>) quiet form
     entry!(c03_hist_vec_duration_try, c03_hist_vec_duration_send, histogram, histogram_with_tags, { let (d, ok) = dur_ns_exact(); let (v, ne) = vec_or_empty(d); (v, ok && ne) }, true);
     //@H name=c03_dist_u64_try props=C01,C03,C20 tier=thorough fn=Distributed<u64> :: distribution(u64): one emit, truthful result
     //@H name=c03_dist_u64_send props=C03,C20 tier=thorough fn=Distributed<u64> :: distribution(u64) quiet form
